@@ -33,6 +33,7 @@ try:
             for k in ('modules', 'required_theorems', 'areas', 'partial', 'modelled_not_verified', 'assumptions'):
                 PROP[k] = PROP[k] + [x for x in _m.PROP.get(k, []) if x not in PROP[k]]
             PROP['drive'] = PROP['drive'] + _m.PROP.get('drive', ['Cmapx'])
+            PROP['harness_files'] = PROP['harness_files'] + _m.PROP.get('harness_files', ['area_cmapx.go'])
             LEVEL['text'] += ' ' + _m.LEVEL['text']
             LEVEL['note'] += ' ' + _m.LEVEL['note']
 except Exception as _e:  # noqa
